@@ -20,6 +20,10 @@
  *        jpeg_mem_dest: outbuffer NULL vs application-supplied initial buffers (single = 0: sweep of size classes
  *        1..64, around the header size, inside the entropy data, len-1, len, len+1; else that one size)
  *        -> "M <n> ok len=.. hdr=.. hash=.." | "M <i> bad size=.. len=got/ref firstdiff=.. hdr=.."
+ *   dst <mode> <w> <h> <nc> <sub> <q> <restart> <imgseed> <maxsize> <single>
+ *        custom never-refusing destination of EVERY buffer size 1..maxsize plus the sizes that leave 0/1/2 free bytes at an
+ *        RSTn marker (mode: 0 baseline 2 progressive 4 lossless 1/3 12-bit, +10 arithmetic); guard bytes behind the buffer
+ *        -> "T <n> ok len=.. markers=.. hash=.." | "T <i> bad size=.. len=got/ref firstdiff=.. overrun=.. markers=.."
  *   coef <id>                              -> "S nmcu=.. hash=.. warn=.." coefficients of a single-scan sequential stream,
  *                                             MCU order, zigzag order (same line as ml/C09_driver.ml `s`)
  *   enc <w> <h> <ncomp> <sub> <quality> <restart> <imgseed> <bufsize> <seed>
@@ -755,6 +759,88 @@ static void memdst_case(int proc, int w, int h, int nc, int sub, int quality, in
   free(ref); free(img); free(tmp);
 }
 
+/* ------------------------- every destination buffer size, never refusing (all entropy encoders, restart markers) */
+typedef struct { struct jpeg_destination_mgr pub; unsigned char *buf; size_t n; unsigned char *sink; size_t len, cap; } plain_dst;
+static void pd_put(plain_dst *d, const unsigned char *p, size_t n)
+{
+  if (d->len + n > d->cap) { d->cap = (d->len + n) * 2 + 1024; d->sink = (unsigned char *)realloc(d->sink, d->cap); }
+  memcpy(d->sink + d->len, p, n); d->len += n;
+}
+static void pd_init(j_compress_ptr c) { plain_dst *d = (plain_dst *)c->dest; d->pub.next_output_byte = d->buf; d->pub.free_in_buffer = d->n; }
+static boolean pd_empty(j_compress_ptr c)
+{
+  plain_dst *d = (plain_dst *)c->dest;
+  pd_put(d, d->buf, d->n);                 /* the ENTIRE buffer, ignoring next_output_byte / free_in_buffer */
+  d->pub.next_output_byte = d->buf; d->pub.free_in_buffer = d->n;
+  return TRUE;
+}
+static void pd_term(j_compress_ptr c) { plain_dst *d = (plain_dst *)c->dest; if (d->pub.free_in_buffer <= d->n) pd_put(d, d->buf, d->n - d->pub.free_in_buffer); }
+
+/* mode: 0 baseline, 1 12-bit, 2 progressive, 3 progressive 12-bit, 4 lossless; +10 = arithmetic coding.  bufsize 0 = jpeg_mem_dest reference.
+ * returns malloc'ed output; *bad: 1 = library wrote outside the buffer / inconsistent free_in_buffer */
+static unsigned char *dst_once(int mode, int w, int h, int nc, int sub, int quality, int restart, uint64_t imgseed,
+                               unsigned char *img, unsigned char *tmp, size_t bufsize, unsigned long *len, int *bad)
+{
+  struct jpeg_compress_struct c; struct my_err e; plain_dst pd; unsigned char *out = NULL; unsigned long outsize = 0;
+  int proc = mode % 10, prec = (proc == 1 || proc == 3) ? 12 : proc == 4 ? quality : 8; size_t k;
+  memset(&pd, 0, sizeof(pd)); *bad = 0;
+  c.err = jpeg_std_error(&e.pub); e.pub.error_exit = my_exit; e.pub.emit_message = my_emit; e.pub.output_message = my_output;
+  if (setjmp(e.jb)) { jpeg_destroy_compress(&c); free(out); free(pd.buf); free(pd.sink); *len = 0; *bad = 2; return NULL; }
+  jpeg_create_compress(&c);
+  if (bufsize == 0) jpeg_mem_dest(&c, &out, &outsize);
+  else {
+    pd.buf = (unsigned char *)malloc(bufsize + 32); memset(pd.buf, 0xA5, bufsize + 32); pd.n = bufsize;
+    pd.pub.init_destination = pd_init; pd.pub.empty_output_buffer = pd_empty; pd.pub.term_destination = pd_term; c.dest = &pd.pub;
+  }
+  setup_compress(&c, proc, w, h, nc, sub, quality, restart, imgseed);
+  if (mode >= 10) c.arith_code = TRUE;
+  jpeg_start_compress(&c, TRUE);
+  while (c.next_scanline < c.image_height) {
+    int n = 1 + (int)(c.next_scanline % 4);
+    if (c.next_scanline + n > c.image_height) n = (int)(c.image_height - c.next_scanline);
+    write_rows(&c, img, w, nc, prec, c.next_scanline, n, tmp);
+  }
+  jpeg_finish_compress(&c);
+  if (bufsize) {
+    if (pd.pub.free_in_buffer > pd.n) *bad = 1;
+    for (k = 0; k < 32; k++) if (pd.buf[bufsize + k] != 0xA5) *bad = 1;
+  }
+  jpeg_destroy_compress(&c);
+  if (bufsize == 0) { *len = outsize; return out; }
+  free(pd.buf); *len = (unsigned long)pd.len; return pd.sink;
+}
+
+/* single = 0: all sizes 1..maxsz plus the sizes that leave exactly 0 / 1 / 2 free bytes at some RSTn marker of the reference */
+static void dst_case(int mode, int w, int h, int nc, int sub, int quality, int restart, uint64_t imgseed, long maxsz, long single)
+{
+  int proc = mode % 10, prec = (proc == 1 || proc == 3) ? 12 : proc == 4 ? quality : 8, bad = 0, i, ns = 0; long k;
+  unsigned char *img = (unsigned char *)malloc((size_t)w * h * nc * 2 + 16), *tmp = (unsigned char *)malloc((size_t)w * nc * 8 + 16);
+  unsigned char *ref, *got; unsigned long L = 0, gl = 0; static long sizes[8192]; long nmark = 0;
+  make_image(img, w, h, nc, prec, imgseed);
+  ref = dst_once(mode, w, h, nc, sub, quality, restart, imgseed, img, tmp, 0, &L, &bad);
+  if (!ref) { printf("T err\n"); free(img); free(tmp); return; }
+  if (single > 0) sizes[ns++] = single;
+  else {
+    for (k = 1; k <= maxsz && ns < 8000; k++) sizes[ns++] = k;
+    for (k = 2; k + 1 < (long)L; k++) if (ref[k] == 0xFF && ref[k + 1] >= 0xD0 && ref[k + 1] <= 0xD7) {
+      long d; nmark++;
+      /* buffer size s leaves (s - m mod s) free bytes at marker offset m: free 1 <=> s | m+1, free 2 <=> s | m+2, full <=> s | m */
+      for (d = 0; d <= 2 && ns < 8000; d++) { long m = k + d, s2; if (m > maxsz) sizes[ns++] = m; s2 = m / 2; if (m % 2 == 0 && s2 > maxsz && ns < 8000) sizes[ns++] = s2; }
+    }
+  }
+  for (i = 0; i < ns; i++) {
+    got = dst_once(mode, w, h, nc, sub, quality, restart, imgseed, img, tmp, (size_t)sizes[i], &gl, &bad);
+    if (bad || !got || gl != L || memcmp(got, ref, L) != 0) {
+      size_t d = 0; while (got && d < L && d < gl && got[d] == ref[d]) d++;
+      printf("T %d bad size=%ld len=%lu/%lu firstdiff=%lu overrun=%d markers=%ld\n", i + 1, sizes[i], gl, L, (unsigned long)d, bad, nmark);
+      free(got); free(ref); free(img); free(tmp); return;
+    }
+    free(got);
+  }
+  printf("T %d ok len=%lu markers=%ld hash=%016llx\n", ns, L, nmark, (unsigned long long)fnv(FNV0, ref, L));
+  free(ref); free(img); free(tmp);
+}
+
 /* ------------------------------------------------------------------ main */
 static int hexval(int ch) { return ch <= '9' ? ch - '0' : (ch | 32) - 'a' + 10; }
 
@@ -842,6 +928,10 @@ int main(void)
         }
       }
       if (!bad) { printf("R %ld ok | ", count); digest_print("D", &r); printf("\n"); }
+    } else if (!strcmp(cmd, "dst")) {
+      int mode, w, h, nc, sub, q, rst; unsigned long long iseed; long maxsz, single;
+      sscanf(line + off, "%d %d %d %d %d %d %d %llu %ld %ld", &mode, &w, &h, &nc, &sub, &q, &rst, &iseed, &maxsz, &single);
+      dst_case(mode, w, h, nc, sub, q, rst, iseed, maxsz, single);
     } else if (!strcmp(cmd, "memdst")) {
       int proc, w, h, nc, sub, q, rst; unsigned long long iseed, seed; long single;
       sscanf(line + off, "%d %d %d %d %d %d %d %llu %llu %ld", &proc, &w, &h, &nc, &sub, &q, &rst, &iseed, &seed, &single);
